@@ -154,13 +154,6 @@ Section Validate.
   Definition lows (t : list (A * A)) : list A := map fst t.
   Definition highs (t : list (A * A)) : list A := map snd t.
 
-  (* np.array(b) of the caller's own argument (PVDevice / GDevice re-parse it): fails on an inhomogeneous sequence *)
-  Definition np_array_ok (b : pv A) : bool :=
-    match b with
-    | PSeq l => forallb is_scalar l || match all_flat l with Some cs => same_len cs | None => false end
-    | _ => true
-    end.
-
   (* RangesFunction._validate_ranges on the stored cbounds of a CDevice2 with several ranges *)
   Fixpoint contiguous_from (prev : pv A) (l : list (pv A)) : bool :=
     match l with
@@ -195,8 +188,8 @@ Section Validate.
             | _ => Accept (raw, scb)
             end) in
         match k with
-        | CPV => if np_array_ok b && PVDevice_bounds_accepts (highs t) then go tt else RaiseValueError
-        | CG => if np_array_ok b && GDevice_bounds_accepts (highs t) then go tt else RaiseValueError
+        | CPV => if PVDevice_bounds_accepts (highs t) then go tt else RaiseValueError
+        | CG => if GDevice_bounds_accepts (highs t) then go tt else RaiseValueError
         | _ => go tt
         end
       end).
